@@ -103,6 +103,78 @@ pub fn gen(id: &str, r: &mut Rng, out: &mut Vec<Case>) {
             };
             out.push(case("square_root", *r.pick(&['0', '1', '2', '3', '4']), 0, vec![d(x)]));
         }
+        "HKROUND" => {
+            let (w, q, x, c) = hk_round_input(r);
+            let name = ["hk_round64", "hk_round128", "hk_round192", "hk_round256"][w];
+            let mut args = vec![Val::G(q as u64), Val::G(x as u64)];
+            for i in 0..=w { args.push(Val::G(c.0[i])); }
+            out.push(case(name, '-', 0, args));
+        }
+        "HKPACK" => {
+            let g = |v: u64| Val::G(v);
+            let sgn = if r.chance(1, 2) { 0u64 } else { 1u64 << 63 };
+            let fl = if r.chance(1, 3) { flags_in(r) } else if r.chance(1, 2) { 0x20 } else { 0 };
+            match r.below(8) {
+                0 | 1 => {
+                    let x = if r.chance(1, 2) { operand(r) } else { match r.below(6) { 0 => noncanonical_finite(r), 1 => nan(r), 2 => infinity(r), 3 => r.u128(), 4 => enc(false, P34 - 1, 0), _ => enc(true, P33, EMAX) } };
+                    out.push(case(*r.pick(&["hk_unpack_value", "hk_unpack"]), '-', 0, vec![g(x as u64), g((x >> 64) as u64)]));
+                }
+                2 => {
+                    let c = match r.below(5) { 0 => 0, 1 => P34 - 1, 2 => P33, _ => { let q = qdigits(r); coeff(r, q) } };
+                    let e = match r.below(4) { 0 => 0, 1 => 12287, _ => r.below(12288) } as u64;
+                    out.push(case("hk_get_very_fast", '-', 0, vec![g(sgn), g(e), g(c as u64), g((c >> 64) as u64)]));
+                }
+                3 => {
+                    let c = match r.below(6) { 0 => 0, 1 => P34 - 1, 2 => P33, 3 => P34, _ => { let q = qdigits(r); coeff(r, q) } };
+                    let e = match r.below(4) { 0 => 0, 1 => 12287, 2 => 12286, _ => r.below(12288) } as u64;
+                    out.push(case("hk_get_fast", '-', 0, vec![g(sgn), g(e), g(c as u64), g((c >> 64) as u64)]));
+                }
+                4 | 5 => {
+                    let c = match r.below(8) { 0 => 0, 1 => P34 - 1, 2 => P33, 3 => P34, 4 => P33 - 1, 5 => { let (c, _) = near_tie_coeff(r); c } _ => { let q = qdigits(r); coeff(r, q) } };
+                    let e: i64 = match r.below(6) { 0 => r.range(-40, -1), 1 => r.range(12287, 12330), 2 => *r.pick(&[0i64, 12287, 12288, -1, -34, -35, 12321, 12322]), 3 => r.range(-3, 3), _ => r.range(-45, 12340) };
+                    out.push(case("hk_get", mode_tok(r), fl, vec![g(sgn), g(e as u64), g(c as u64), g((c >> 64) as u64)]));
+                }
+                _ => {
+                    // underflow handlers: the digits that fall off sit at a chosen distance from the tie
+                    let (c, k) = if r.chance(2, 3) { near_tie_coeff(r) } else { let q = qdigits(r); (coeff(r, q), 1 + r.below(34) as u32) };
+                    let e: i64 = if r.chance(3, 4) { -(k as i64) } else { r.range(-36, -1) };
+                    let c = match r.below(12) { 0 => P34 - 1, 1 => P33, 2 => 1, 3 => 5 * pow10((-e - 1).clamp(0, 33) as u32), _ => c };
+                    if r.chance(1, 2) {
+                        out.push(case("hk_handle_uf", mode_tok(r), fl, vec![g(sgn), g(e as u64), g(c as u64), g((c >> 64) as u64)]));
+                    } else {
+                        let rem = match r.below(4) { 0 | 1 => 0, 2 => 1, _ => r.next() };
+                        out.push(case("hk_handle_uf_rem", mode_tok(r), fl, vec![g(sgn), g(e as u64), g(c as u64), g((c >> 64) as u64), g(rem)]));
+                    }
+                }
+            }
+        }
+        "HKARITH" => {
+            const OPS: [(&str, usize, u32); 40] = [
+                ("shr_128", 2, 1), ("shr_256", 4, 1), ("shr_128_long", 2, 1), ("shl_128_long", 2, 1),
+                ("add_128_64", 3, 0), ("sub_128_64", 3, 0), ("add_128_128", 4, 0), ("sub_128_128", 4, 0), ("sub_256_128_to_256", 6, 0),
+                ("add_carry_out", 2, 0), ("add_carry_in_out", 3, 2), ("sub_borrow_out", 2, 0), ("sub_borrow_in_out", 3, 2),
+                ("mul_64x64_to_64", 2, 0), ("mul_64x64_to_128", 2, 0), ("mul_64x64_to_128_fast", 2, 0), ("mul_64x64_to_128_full", 2, 0),
+                ("mul_64x64_to_128MACH", 2, 0), ("mul_64x64_to_128HIGH", 2, 0), ("mul_128x128_high", 4, 0), ("mul_128x128_full", 4, 0),
+                ("mul_128x128_low", 4, 0), ("mul_64x128_low", 3, 0), ("mul_64x128_full", 3, 0), ("mul_64x128_to_192", 3, 0),
+                ("mul_64x128_to_256", 3, 0), ("mul_64x128_to192", 3, 0), ("mul_128x128_to_256", 4, 0), ("mul_64x192_to_256", 4, 0),
+                ("mul_64x256_to_256", 5, 0), ("mul_128x64_to_128", 3, 0), ("mul_64x128_to_128", 3, 0), ("mul_64x256_to_320", 5, 0),
+                ("mul_192x192_to_384", 6, 0), ("sqr128_to_256", 2, 0), ("mul_256x256_to_512", 8, 0), ("mul_64x128_short", 3, 0),
+                ("compare_gt_128", 4, 0), ("compare_ge_128", 4, 0), ("test_equal_128", 4, 0),
+            ];
+            let (name, nwords, kind) = *r.pick(&OPS);
+            let mut args: Vec<Val> = (0..nwords).map(|_| Val::G(hk_word(r))).collect();
+            if name.starts_with("compare") || name.starts_with("test_equal") {
+                // equal or adjacent operands often
+                if r.chance(1, 2) { let (a0, a1) = (args[0].clone(), args[1].clone()); args[2] = a0; args[3] = a1;
+                    if r.chance(1, 2) { if let Val::G(v) = args[2] { args[2] = Val::G(v.wrapping_add(*r.pick(&[1u64, u64::MAX]))); } } }
+            }
+            match kind {
+                1 => { let k = match r.below(6) { 0 => 0u64, 1 => 63, 2 => 64, 3 => 1, 4 => 127, _ => r.below(128) }; args.push(Val::G(k)); }
+                2 => { let last = args.len() - 1; args[last] = Val::G(r.below(2)); }
+                _ => {}
+            }
+            out.push(case(&format!("hk_{}", name), '-', 0, args));
+        }
         "FMASUB" => {
             let (x, y, z) = fma_subnormal_product_triple(r);
             out.push(case("fused_multiply_add", mode_tok(r), 0, vec![d(x), d(y), d(z)]));
@@ -154,10 +226,12 @@ pub fn gen(id: &str, r: &mut Rng, out: &mut Vec<Case>) {
                     out.push(case(*r.pick(&["lround", "llround"]), '-', flags_in(r), vec![d(x)]));
                 }
                 _ => {
-                    let x = if r.chance(1, 12) { operand(r) } else if r.chance(1, 4) { let (c, k) = near_tie_coeff(r); enc(r.chance(1, 2), c, -(k as i32)) } else { int_boundary_operand(r) };
-                    let fl = flags_in(r);
                     // all variants of one width/signedness on the same operand
-                    let base = 10 * r.below(4) as usize;
+                    let class = r.below(4) as usize;
+                    let base = 10 * class;
+                    let x = if r.chance(1, 12) { operand(r) } else if r.chance(1, 4) { let (c, k) = near_tie_coeff(r); enc(r.chance(1, 2), c, -(k as i32)) }
+                            else if r.chance(1, 2) { int_boundary_for(r, class) } else { int_boundary_operand(r) };
+                    let fl = flags_in(r);
                     for op in TO_INT[base..base + 10].iter() { out.push(case(op, '-', fl, vec![d(x)])); }
                 }
             }
